@@ -132,6 +132,13 @@ pub(super) struct Local {
 struct Handover(AtomicUsize);
 
 /// The slots for the helping strategy.
+impl Local {
+    /// Will the next transaction wrap the generation around?
+    pub(super) fn wraps_next(&self) -> bool {
+        self.generation.get().wrapping_add(4) == 0
+    }
+}
+
 pub(super) struct Slots {
     /// The control structure of the slot.
     ///
